@@ -186,6 +186,10 @@ MUTANTS = [
  ("c18-size-helper-form", "C18", "", "svg/svg.go", "\tw, h := svg.root.width, svg.root.height\n\tif w.U == 0 {\n\t\tw = Value{100, Perc}\n\t}\n\tif h.U == 0 {\n\t\th = Value{100, Perc}\n\t}\n\treturn w, h\n}", "\torAuto := func(v Value) Value {\n\t\tif v.U == 0 {\n\t\t\treturn Value{100, Perc}\n\t\t}\n\t\treturn v\n\t}\n\treturn orAuto(svg.root.width), orAuto(svg.root.height)\n}"),
  ("c02-fixedheight-inline-form", "C02", "", "html/layout/blocks.go", "if overflows(box.PositionY+box.Height.V(), positionY) {", "if positionY > (box.PositionY+box.Height.V())*(1+1e-9) {"),
  ("c18-viewbox-early-error", "C18", "", "svg/tree.go", "\t\tif err == nil && (v.Width < 0 || v.Height < 0) {\n\t\t\t// a negative size invalidates the attribute\n\t\t\treturn nil, nil\n\t\t}\n\t\treturn &v, err", "\t\tif err != nil {\n\t\t\treturn &v, err\n\t\t}\n\t\tif v.Width < 0 || v.Height < 0 {\n\t\t\treturn nil, nil\n\t\t}\n\t\treturn &v, nil"),
+ ("c08-none-equalfold", "C08", "", "css/validation/validation.go", "\t\tif utils.AsciiLower(name) == \"none\" { // the keyword is case-insensitive, the names of styles are not\n", "\t\tif strings.EqualFold(name, \"none\") {\n"),
+ ("c01-grid-product", "C01", "", "html/boxes/build.go", "\tif gridWidth == 0 || gridHeight == 0 {\n\t\t// Don’t bother with empty tables", "\tif gridWidth*gridHeight == 0 {\n\t\t// Don’t bother with empty tables"),
+ ("c01-nesting-size-compare", "C01", "", "css/validation/validation.go", "\t\t\tif budget := maxNestedSelectorSize; exceedsSize(declarationPrelude, &budget) {\n", "\t\t\tif countTokens := func(l []Token) int { b := maxNestedSelectorSize + 1; exceedsSize(l, &b); return maxNestedSelectorSize + 1 - b }; countTokens(declarationPrelude) > maxNestedSelectorSize {\n"),
+ ("c18-use-len-form", "C18", "", "svg/elements.go", "\tif node.attrs[\"href\"] == \"\" { // nothing is referenced\n", "\tif len(node.attrs[\"href\"]) == 0 {\n"),
 ]
 
 def main():
